@@ -1,4 +1,4 @@
-import RV.Model.C20Scalar
+import RV.Scalar
 /-
   Model of the frame operations of src/tools.c:
     reb_particle_com_of_pair / reb_simulation_com_range / reb_simulation_com   (406-483)
@@ -17,13 +17,13 @@ import RV.Model.C20Scalar
 -/
 namespace RV.Frame
 open RV Scalar
-variable {K : Type} [ScalarR K]
+variable {K : Type} [ScalarO K]
 
 /-- `reb_particle_com_of_pair` on (m, x): `x = x1*m1 + x2*m2; m = m1+m2; if (m>0.) x /= m` -/
 def comPair (p1 p2 : K × K) : K × K :=
   let x := p1.2 * p1.1 + p2.2 * p2.1
   let m := p1.1 + p2.1
-  if ScalarR.lt Scalar.zero m then (m, x / m) else (m, x)
+  if ScalarO.lt Scalar.zero m then (m, x / m) else (m, x)
 
 /-- `reb_simulation_com_range(r, 0, N_real)`: fold from `com = {0}` -/
 def com (ps : List (K × K)) : K × K := ps.foldl comPair (Scalar.zero, Scalar.zero)
